@@ -107,17 +107,19 @@ CONSTANTS
  PointerNoOffset = {d3}
  MergeNoCount = {d4}
  PosAsSet = {d5}
+ MaxCalls = {calls}
+ UnifyWrapsNull = {d6}
 {tail}"""
-CHK_INV = "INVARIANT MergedIsDef\nINVARIANT PointerAligned\nINVARIANT NoOutOfBounds\nINVARIANT PartialIsPieceDef\nINVARIANT PiecesAreSlice\nINVARIANT LabelsAreKeys\n"
+CHK_INV = "INVARIANT MergedIsDef\nINVARIANT LogicalCodesIntact\nINVARIANT PointerAligned\nINVARIANT NoOutOfBounds\nINVARIANT PartialIsPieceDef\nINVARIANT PiecesAreSlice\nINVARIANT LabelsAreKeys\n"
 ALLK7 = '{"size", "count", "sum", "sumsq", "min", "max", "first", "last"}'
 
 
 def chk_cfg(rows=2, chunks=3, kernels='{"sum", "first", "last", "size"}', masks='{"none", "slice"}', reps='{"pointers", "global"}', sorts="{TRUE, FALSE}",
-            distinct="TRUE", anyorder="FALSE", dev=None, spec="Spec", tail=CHK_INV):
-    d = {f"d{i}": "FALSE" for i in range(1, 6)}
+            distinct="TRUE", anyorder="FALSE", dev=None, spec="Spec", tail=CHK_INV, calls=1):
+    d = {f"d{i}": "FALSE" for i in range(1, 7)}
     if dev:
         d[dev] = "TRUE"
-    return CHK.format(spec=spec, rows=rows, chunks=chunks, kernels=kernels, masks=masks, reps=reps, sorts=sorts, distinct=distinct, anyorder=anyorder, tail=tail, **d)
+    return CHK.format(spec=spec, rows=rows, chunks=chunks, kernels=kernels, masks=masks, reps=reps, sorts=sorts, distinct=distinct, anyorder=anyorder, tail=tail, calls=calls, **d)
 
 
 def chk_trace_cfg(internal=True):
@@ -196,6 +198,11 @@ def run(tier):
     ck.mc_bg("GBChunked", chk_cfg(dev="d4", kernels='{"min", "first"}', masks='{"none"}', distinct="FALSE", tail="INVARIANT MergedIsDef\n"),
              "neg_chunked_merge_without_count", expect="MergedIsDef", workers=1)
     ck.mc_bg("GBChunked", chk_cfg(dev="d5", masks='{"pos"}', tail="INVARIANT MergedIsDef\n"), "neg_chunked_positions_as_set", expect="MergedIsDef", workers=1)
+    # the object reused: a second call after _unify_group_key_chunks(keep_chunked = TRUE / FALSE) (C13 with data)
+    ck.mc_bg("GBChunked", chk_cfg(rows=2 if tier == "quick" else 3, chunks=2, kernels='{"sum", "first"}', masks='{"none", "bool"}', reps='{"pointers"}', sorts="{TRUE}",
+                                  distinct="FALSE", calls=2), "chunked_two_calls_with_unify", workers=4)
+    ck.mc_bg("GBChunked", chk_cfg(rows=2, chunks=2, kernels='{"sum"}', masks='{"none"}', reps='{"pointers"}', sorts="{TRUE}", distinct="FALSE", calls=2, dev="d6",
+                                  tail="INVARIANT LogicalCodesIntact\n"), "neg_chunked_unify_wraps_null", expect="LogicalCodesIntact", workers=1)
     rng = Rng(f"C03-{ck.seed}")
     sched.install()
     # (d) reductions over chunked keys, with the per-piece partials of hook H6
